@@ -23,7 +23,8 @@ package isaacdatabase
 //@ func (*TempPool).SetBallot
 //@   prop C24
 //@   requires db != nil && bl != nil && db.baseLeveldb != nil && (db.baseLeveldb.pst != nil ==> db.baseLeveldb.pst.Storage != nil && len(db.baseLeveldb.pst.prefix) < 1099511627776)
-//@   callsite Put requires a0 == key && exfound == 0
+//@   callsite Exists requires a0 == leveldbBallotKey(bl.Point(), isaac.IsSuffrageConfirmBallotFact(bl.SignFact().Fact()))
+//@   callsite Put requires a0 == leveldbBallotKey(bl.Point(), isaac.IsSuffrageConfirmBallotFact(bl.SignFact().Fact())) && exfound == 0
 //@   ensures [stored-flag] r1 == nil && r0 ==> exfound == 0
 
 //@ func leveldbProposalKey
@@ -40,7 +41,8 @@ package isaacdatabase
 //@ func (*TempPool).SetProposal
 //@   prop C24
 //@   requires db != nil && pr != nil && db.baseLeveldb != nil && pr.Fact() != nil && pr.ProposalFact() != nil && (db.baseLeveldb.pst != nil ==> db.baseLeveldb.pst.Storage != nil && len(db.baseLeveldb.pst.prefix) < 1099511627776)
-//@   callsite Put requires exfound == 0
+//@   callsite Exists requires a0 == leveldbProposalKey(pr.Fact().Hash())
+//@   callsite Put requires exfound == 0 && (a0 == leveldbProposalKey(pr.Fact().Hash()) || a0 == leveldbProposalPointKey(pr.ProposalFact().Point(), pr.ProposalFact().Proposer(), pr.ProposalFact().PreviousBlock()))
 //@   callsite Batch requires exfound == 0
 //@   ensures [stored-flag] r1 == nil && r0 ==> exfound == 0
 
